@@ -153,9 +153,14 @@ pub fn run(args: &Args) -> Report {
                 return ("owner-not-ready".into(), String::new(), 0);
             }
             let mut held_at = String::new();
+            let mut opened = 0usize;
             let r = step::run_child(&exe, &["observer".into(), root.clone(), prefix.clone()], &[], &prefix, &mut |s: &Stop| {
+                if s.k < k && s.name.starts_with("open") && s.obj.contains("node_monitor") {
+                    opened += 1;
+                }
                 if s.k == k {
-                    held_at = s.descriptor();
+                    // how many of the node's monitoring files the observer had asked to open before it was held
+                    held_at = format!("{} [monitor files opened before: {}]", s.descriptor(), opened);
                     std::fs::write(format!("{flag}.go"), b"x").unwrap();
                     wait_for(&format!("{flag}.done"), 10_000);
                 }
@@ -170,6 +175,7 @@ pub fn run(args: &Args) -> Report {
         let (_, _, total) = trial_b(usize::MAX);
         rep.count("observer_stops_total", total as u64);
         let mut dead_points = Vec::new();
+        let mut early_dead: Vec<String> = Vec::new();
         let mut table = Vec::new();
         for k in 1..=total {
             if !take(k) {
@@ -183,7 +189,13 @@ pub fn run(args: &Args) -> Report {
             rep.count(&format!("observer_held_verdict_{}", verdict.split(|c| c == '(' || c == ' ').next().unwrap()), 1);
             table.push(format!("k{} {} -> {}", k, at, verdict));
             if verdict.contains("DEAD") {
-                dead_points.push(format!("k{} before {}", k, at));
+                if at.contains("opened before: 0]") {
+                    // the observer had not touched any monitoring file of the node when the owner's complete drop ran:
+                    // the known root cause (lock state read from files opened before the drop) cannot explain this
+                    early_dead.push(format!("k{} before {}", k, at));
+                } else {
+                    dead_points.push(format!("k{} before {}", k, at));
+                }
             } else if verdict.contains("early") || verdict.contains("no-output") || verdict.contains("not-ready") {
                 rep.inconclusive += 1;
             }
@@ -196,6 +208,16 @@ pub fn run(args: &Args) -> Report {
                 Json::obj().set("hold_points", dead_points.clone()),
             );
         }
+        if !early_dead.is_empty() {
+            rep.violation(
+                "dead_verdict_on_live_node",
+                "C07:observer_held:node_list:dead_verdict_before_any_monitor_file_was_opened",
+                format!("Node::list reported DEAD for a live process whose orderly node drop completed before the observer had opened any of its monitoring files; observer held at: {}", early_dead.join(", ")),
+                Json::obj().set("hold_points", early_dead.clone()),
+            );
+        }
+        rep.count("observer_held_dead_after_monitor_open", dead_points.len() as u64);
+        rep.count("observer_held_dead_before_monitor_open", early_dead.len() as u64);
         rep.sample(Json::obj().set("sweep", "observer held before each of its stops while the live owner drops its node").set("table", table.join("; ")));
     }
 
